@@ -16,7 +16,7 @@ Nested == [kind : {"union"}, req : {TRUE, FALSE}, nul : {FALSE}, ms : NestedMs, 
 Init == d \in Leafs \cup Unions \cup Nested /\ done = FALSE
 Next == ~done /\ done' = TRUE /\ UNCHANGED d
 Spec == Init /\ [][Next]_<<d, done>>
-WireSeq == <<"absent", "null", "t", "f", "i1", "i2", "i7", "f15", "f10", "s", "ds", "dts", "dt0", "us", "m1", "m2",
+WireSeq == <<"absent", "null", "t", "f", "i0", "i1", "i2", "i7", "f15", "f10", "se", "s", "ds", "dts", "dt0", "us", "m1", "m2",
              "objv", "objw", "objvw", "obj0", "arr0", "arri", "arrd", "arro", "arrs">>
 Dec(w) == DecodeAttr(d, w)
 Enc(w) == IF Dec(w) = Raise THEN "raise" ELSE EncodeAttr(d, Dec(w))
